@@ -209,6 +209,12 @@ func (b *Builder) epsilonClosureOnePass(root nfa.StateID) ([]closureEntry, bool,
 			}
 
 		case nfa.StateByteRange, nfa.StateSparse:
+			// A byte transition behind \z or a non-multiline $ can never be
+			// taken: the assertion holds only where no byte is left ((a$)b).
+			if endOnly {
+				closure = closure[:len(closure)-1]
+				continue
+			}
 			// A byte transition with lower priority than a match that holds at
 			// any position: leftmost-first semantics stop at that match
 			// ((foo|foobar) on "foobar" ends after "foo"), but this automaton
